@@ -39,6 +39,12 @@ type sgScript struct {
 	Refuse    [][2]int `json:"refuse"`  // [produce request number (1..) touching the partition, partition]: refused once
 	Close     bool     `json:"close"`   // close the channel at the end (shutdown) or leave it open
 	WaitMS    int      `json:"wait_ms"` // how long to wait for the broker to hold everything still expected
+	// a partition leader that is away for a while: partition 0 refuses every request (each answer delayed by delay_ms) until
+	// heal_ms after the first produce request; the Writer is given max_attempts tries, the driver connect_timeout seconds
+	HealMS         int `json:"heal_ms"`
+	DelayMS        int `json:"delay_ms"`
+	MaxAttempts    int `json:"max_attempts"`
+	ConnectTimeout int `json:"connect_timeout"`
 }
 
 type sgResult struct {
@@ -60,6 +66,9 @@ type sgBroker struct {
 	refuse map[[2]int]bool
 	nref   int
 	conns  []net.Conn
+	heal   time.Duration
+	delay  time.Duration
+	first  time.Time
 }
 
 func sgListen(topic string, refuse [][2]int) (*sgBroker, error) {
@@ -129,10 +138,18 @@ func (b *sgBroker) serve(c net.Conn) {
 					b.mu.Lock()
 					b.reqs[p]++
 					refused := b.refuse[[2]int{b.reqs[p], p}]
-					if refused {
+					if b.first.IsZero() {
+						b.first = time.Now()
+					}
+					away := b.heal > 0 && p == 0 && time.Since(b.first) < b.heal
+					if refused || away {
 						b.nref++
 					}
 					b.mu.Unlock()
+					if away {
+						time.Sleep(b.delay)
+						refused = true
+					}
 					var vals []string
 					if rp.RecordSet.Records != nil {
 						for {
@@ -174,8 +191,15 @@ func sgRun(sc sgScript) (res sgResult) {
 		return
 	}
 	defer b.close()
+	b.heal, b.delay = time.Duration(sc.HealMS)*time.Millisecond, time.Duration(sc.DelayMS)*time.Millisecond
+	if sc.MaxAttempts == 0 {
+		sc.MaxAttempts = 1
+	}
+	if sc.ConnectTimeout == 0 {
+		sc.ConnectTimeout = 3
+	}
 	cf, _ := ioutil.TempFile("", "verif-segmentio-*.conf")
-	fmt.Fprintf(cf, "brokers:\n- %s\nbatch-size: %d\npflush: %d\nmax-attempts: 1\nrequired-acks: 1\nconnect-timeout: 3\n", b.ln.Addr().String(), sc.BatchSize, sc.PFlush)
+	fmt.Fprintf(cf, "brokers:\n- %s\nbatch-size: %d\npflush: %d\nmax-attempts: %d\nrequired-acks: 1\nconnect-timeout: %d\n", b.ln.Addr().String(), sc.BatchSize, sc.PFlush, sc.MaxAttempts, sc.ConnectTimeout)
 	cf.Close()
 	defer os.Remove(cf.Name())
 	for _, kv := range os.Environ() {
